@@ -55,7 +55,7 @@ def active() -> bool:
 
 class Ctx:
     def __init__(self, prefix=(), timeout_ms=120000, fork_indices=True, loop_bound=64, max_cp=0xFF,
-                 max_digits=6, buf_cap=8):
+                 max_digits=6, buf_cap=8, bv_ints=False):
         self.solver = z3.Solver()
         self.solver.set("timeout", timeout_ms)
         self.prefix = list(prefix)
@@ -70,6 +70,7 @@ class Ctx:
         self.max_cp = max_cp
         self.max_digits = max_digits
         self.buf_cap = buf_cap
+        self.bv_ints = bv_ints
         self.ndecisions = 0
         self.notes = []
         self.inputs = {}  # name -> symbolic input object, for model extraction
@@ -426,21 +427,53 @@ def ite(c, a, b):
     return mk_int(z3.If(c, zi(a), zi(b)))
 
 
+MAX_BV_WIDTH = 72
+
+
+def _sx(bv, w):
+    return bv if bv.size() == w else z3.SignExt(w - bv.size(), bv)
+
+
+def _bv_of(o):
+    """signed bit-vector view of an int-like operand, or None"""
+    if isinstance(o, bool):
+        o = int(o)
+    if isinstance(o, int):
+        w = o.bit_length() + 1
+        return z3.BitVecVal(o, w) if w <= MAX_BV_WIDTH else None
+    if isinstance(o, SInt):
+        return o.bv
+    return None
+
+
+def _mk_sint_bv(bv, nonneg=False):
+    bv = z3.simplify(bv)
+    if z3.is_bv_value(bv):
+        return bv.as_signed_long()
+    if bv.size() > MAX_BV_WIDTH:
+        return mk_int(z3.BV2Int(bv, is_signed=True))
+    return SInt(z3.BV2Int(bv, is_signed=True), bv, nonneg)
+
+
 class SInt:
-    """symbolic Python int (z3 Int).  `bv`, when set, is an unsigned bit-vector term
-    with the same value: comparisons against constants then stay in the bit-vector
-    theory (Int/BV mixing through bv2int is what makes queries slow)."""
+    """symbolic Python int (z3 Int).  `bv`, when set, is a *signed* bit-vector term with
+    exactly the same value (widths grow with every operation, so nothing ever wraps):
+    arithmetic and comparisons then stay in the bit-vector theory -- mixing Int and
+    BV through bv2int/int2bv is what makes queries slow."""
 
-    __slots__ = ("e", "bv")
+    __slots__ = ("e", "bv", "nonneg")
 
-    def __init__(self, e, bv=None):
+    def __init__(self, e, bv=None, nonneg=False):
         self.e = e
         self.bv = bv
+        self.nonneg = nonneg
 
     def __repr__(self):
         return f"SInt({self.e})"
 
     def __bool__(self):
+        if self.bv is not None:
+            return ctx().decide(self.bv != 0)
         return ctx().decide(self.e != 0)
 
     def __index__(self):
@@ -451,23 +484,38 @@ class SInt:
 
     __hash__ = None
 
-    def _bin(self, o, f):
+    def _bin(self, o, f, bvop=None):
+        if bvop is not None and self.bv is not None:
+            ob = _bv_of(o)
+            if ob is not None:
+                w = max(self.bv.size(), ob.size()) + 1
+                if w <= MAX_BV_WIDTH:
+                    nn = self.nonneg and (o >= 0 if isinstance(o, int) else getattr(o, "nonneg", False)) and bvop == "add"
+                    a, b = _sx(self.bv, w), _sx(ob, w)
+                    return _mk_sint_bv({"add": a + b, "sub": a - b, "rsub": b - a}[bvop], nn)
         if isinstance(o, (int, SInt, SBool)):
             return mk_int(f(self.e, zi(o)))
         return NotImplemented
 
     def __add__(self, o):
-        return self._bin(o, lambda a, b: a + b)
+        return self._bin(o, lambda a, b: a + b, "add")
 
     __radd__ = __add__
 
     def __sub__(self, o):
-        return self._bin(o, lambda a, b: a - b)
+        return self._bin(o, lambda a, b: a - b, "sub")
 
     def __rsub__(self, o):
-        return self._bin(o, lambda a, b: b - a)
+        return self._bin(o, lambda a, b: b - a, "rsub")
 
     def __mul__(self, o):
+        if self.bv is not None:
+            ob = _bv_of(o)
+            if ob is not None:
+                w = self.bv.size() + ob.size()
+                if w <= MAX_BV_WIDTH:
+                    nn = self.nonneg and (o >= 0 if isinstance(o, int) else getattr(o, "nonneg", False))
+                    return _mk_sint_bv(_sx(self.bv, w) * _sx(ob, w), nn)
         if isinstance(o, (int, SInt, SBool)):
             return mk_int(self.e * zi(o))
         return NotImplemented
@@ -475,17 +523,24 @@ class SInt:
     __rmul__ = __mul__
 
     def __neg__(self):
+        if self.bv is not None and self.bv.size() + 1 <= MAX_BV_WIDTH:
+            return _mk_sint_bv(-_sx(self.bv, self.bv.size() + 1))
         return mk_int(-self.e)
 
     def __pos__(self):
         return self
 
     def __abs__(self):
+        if self.nonneg:
+            return self
         return mk_int(z3.If(self.e < 0, -self.e, self.e))
 
     def __floordiv__(self, o):
         # python floor division; z3 Int div is euclidean: equal for positive divisor
         if isinstance(o, int) and o > 0:
+            if self.bv is not None and self.nonneg:
+                w = max(self.bv.size(), o.bit_length() + 1)
+                return _mk_sint_bv(z3.UDiv(_sx(self.bv, w), z3.BitVecVal(o, w)), True)
             return mk_int(self.e / o)
         if isinstance(o, (int, SInt)):
             oe = zi(o)
@@ -493,7 +548,6 @@ class SInt:
                 raise ZeroDivisionError("integer division or modulo by zero")
             if ctx().decide(oe > 0):
                 return mk_int(self.e / oe)
-            # a // b for b<0 == floor(a/b) == -((-a) // (-b)) adjusted: use (−a) ediv (−b) with b' > 0
             return mk_int((-self.e) / (-oe))
         return NotImplemented
 
@@ -502,6 +556,9 @@ class SInt:
 
     def __mod__(self, o):
         if isinstance(o, int) and o > 0:
+            if self.bv is not None and self.nonneg:
+                w = max(self.bv.size(), o.bit_length() + 1)
+                return _mk_sint_bv(z3.URem(_sx(self.bv, w), z3.BitVecVal(o, w)), True)
             return mk_int(self.e % o)
         if isinstance(o, (int, SInt)):
             oe = zi(o)
@@ -525,15 +582,16 @@ class SInt:
 
         if length != 1 or signed:
             raise Unsupported("int.to_bytes beyond one unsigned byte")
-        if self.bv is not None:
-            w = self.bv.size()
-            if w > 8 and not ctx().decide(z3.ULT(self.bv, 256)):
-                raise OverflowError("int too big to convert")
-            b = self.bv if w == 8 else (z3.Extract(7, 0, self.bv) if w > 8 else z3.ZeroExt(8 - w, self.bv))
-            return SSeq("bytes", [z3.simplify(b)], 1)
-        if not ctx().decide(z3.And(self.e >= 0, self.e < 256)):
+        if not bool(sand(self >= 0, self < 256)):
             raise OverflowError("int too big to convert")
-        return SSeq("bytes", [z3.Int2BV(self.e, 8)], 1)
+        return SSeq("bytes", [self.low_bits(8)], 1)
+
+    def low_bits(self, w):
+        """the low w bits as an unsigned bit-vector (caller has checked the range)"""
+        if self.bv is not None:
+            bw = self.bv.size()
+            return z3.simplify(z3.Extract(w - 1, 0, self.bv) if bw >= w else z3.SignExt(w - bw, self.bv))
+        return z3.Int2BV(self.e, w)
 
     def bit_length(self):
         raise Unsupported("bit_length")
@@ -579,37 +637,32 @@ class SInt:
 
 
 def _bv_cmp(bv, o, name):
-    """compare an unsigned bit-vector valued int with a constant / another such int"""
-    w = bv.size()
-    if isinstance(o, bool):
-        o = int(o)
-    if isinstance(o, int):
-        top = (1 << w) - 1
-        if o < 0:
-            return {"lt": False, "le": False, "gt": True, "ge": True, "eq": False}[name]
-        if o > top:
-            return {"lt": True, "le": True, "gt": False, "ge": False, "eq": False}[name]
-        c = z3.BitVecVal(o, w)
-        e = {"lt": z3.ULT, "le": z3.ULE, "gt": z3.UGT, "ge": z3.UGE, "eq": lambda a, b: a == b}[name](bv, c)
-        return mk_bool(e)
-    if isinstance(o, SInt) and o.bv is not None:
-        w2 = o.bv.size()
-        a, b = bv, o.bv
-        if w < w2:
-            a = z3.ZeroExt(w2 - w, a)
-        elif w2 < w:
-            b = z3.ZeroExt(w - w2, b)
-        e = {"lt": z3.ULT, "le": z3.ULE, "gt": z3.UGT, "ge": z3.UGE, "eq": lambda x, y: x == y}[name](a, b)
-        return mk_bool(e)
-    return None
+    """compare a signed-bit-vector valued int with a constant / another such int"""
+    ob = _bv_of(o)
+    if ob is None:
+        return None
+    w = max(bv.size(), ob.size())
+    a, b = _sx(bv, w), _sx(ob, w)
+    e = {"lt": lambda x, y: x < y, "le": lambda x, y: x <= y, "gt": lambda x, y: x > y, "ge": lambda x, y: x >= y,
+         "eq": lambda x, y: x == y}[name](a, b)
+    return mk_bool(e)
 
 
 def mk_int_bv(bv):
-    """Python-int view of an unsigned bit-vector term"""
+    """Python-int view of an *unsigned* bit-vector term (a byte, a code point)"""
     bv = z3.simplify(bv)
     if z3.is_bv_value(bv):
         return bv.as_long()
-    return SInt(z3.BV2Int(bv), bv)
+    return _mk_sint_bv(z3.ZeroExt(1, bv), True)
+
+
+def sym_int_bv(name, lo, hi):
+    """a fresh int in lo..hi backed by a bit-vector variable"""
+    w = max(abs(lo), abs(hi)).bit_length() + 1
+    v = z3.BitVec(name, w)
+    c = ctx()
+    c.add(z3.And(v >= lo, v <= hi))
+    return SInt(z3.BV2Int(v, is_signed=True), v, lo >= 0)
 
 
 def smin(*a, **kw):
